@@ -19,7 +19,7 @@ use tls_parser::{
     CIPHERS,
 };
 
-pub const RULE: &str = "exhaustive and seed-independent: every row of scripts/tls-ciphersuites.txt x 10 columns against the built-in registry; every golden-snapshot row x 10 columns; all 65536 ids x 4 lookup routes (+ Debug of the id); every registry name through from_name and TryFrom<&str>, plus per name every proper prefix, appended/prepended characters, lower/upper case, every single-character change and deletion, non-ASCII look-alikes at every position (same low byte / low 7 bits, fullwidth, case-folding and homoglyph characters) and inserted invisible characters, adjacent-token transposition, and every token replaced by every token of the registry vocabulary; derived sizes on every row and on synthetic suites covering every enc x mac variant; name-token implications on every row. distinct_nontrivial counts distinct (family, parameter tuple / lookup outcome / perturbation kind x outcome) classes";
+pub const RULE: &str = "exhaustive and seed-independent: every row of scripts/tls-ciphersuites.txt x 10 columns against the built-in registry; every golden-snapshot row x 10 columns; all 65536 ids x 4 lookup routes (+ Debug of the id); every registry name through from_name and TryFrom<&str>, plus per name every proper prefix, appended/prepended characters, lower/upper case, every single-character change and deletion, non-ASCII look-alikes at every position (same low byte / low 7 bits, fullwidth, case-folding and homoglyph characters) and inserted invisible characters, a volume of 2^26 (thorough 2^28) generated non-names, adjacent-token transposition, and every token replaced by every token of the registry vocabulary; derived sizes on every row and on synthetic suites covering every enc x mac variant; name-token implications on every row. distinct_nontrivial counts distinct (family, parameter tuple / lookup outcome / perturbation kind x outcome) classes";
 pub const ASSUMPTIONS: &[&str] = &[
     "scripts/tls-ciphersuites.txt is read at run time from the repository; the registry was compiled from the same tree (a stale build shows up as cell mismatches)",
     "golden/ciphersuites.golden is the snapshot of today's assignments (first 10 columns of every row); rows only present in the registry are counted (rows.not_in_golden), not judged",
@@ -1061,6 +1061,46 @@ pub fn run(ctx: &mut Ctx) {
         }
     });
     ctx.mark_exhaustive("every registry name and its perturbations x {from_name, TryFrom<&str>}");
+
+    // ------------------------------------------------ volume: 2^26 (thorough 2^28) generated strings that are not names, both
+    // routes: all must miss (an index that does not re-check the key shows up as a hit at this scale:
+    // 352 names / 2^32 per string for a 32-bit key)
+    let chunks: u64 = ctx.tier.pick(1024, 4096);
+    ctx.floor("names.volume", chunks * 65536);
+    ctx.sweep("name-volume", chunks, |ctx, idx| {
+        use std::fmt::Write as _;
+        let mut s = String::with_capacity(80);
+        let mut hits: Vec<(String, u16)> = Vec::new();
+        for k in (idx * 65536)..((idx + 1) * 65536) {
+            s.clear();
+            let mut x = k.wrapping_mul(0x9E37_79B9_7F4A_7C15) ^ 0xD6E8_FEB8_6659_FD93;
+            x ^= x >> 29;
+            match k % 4 {
+                0 => { let _ = write!(s, "TLS_PRIVATE_USE_{:06X}", k); }
+                1 => { let _ = write!(s, "TLS_EXPERIMENTAL_SUITE_{:X}", x); }
+                2 => { let _ = write!(s, "{}_{:X}", name_list[(x % name_list.len() as u64) as usize], k); }
+                _ => { let _ = write!(s, "{:016x}", x); }
+            }
+            if names.by_name.contains_key(s.as_str()) {
+                continue;
+            }
+            if let Some(c) = TlsCipherSuite::from_name(&s) {
+                hits.push((s.clone(), c.id.0));
+            }
+            if let Ok(c) = <&'static TlsCipherSuite as TryFrom<&str>>::try_from(&s[..]) {
+                hits.push((s.clone(), c.id.0));
+            }
+        }
+        ctx.evals(2 * 65536);
+        ctx.add("names.volume", 65536);
+        ctx.shape(&("name-volume", idx / 64, hits.is_empty()));
+        if let Some((q, id)) = hits.first() {
+            ctx.violation(
+                "c12:name:volume:spurious-hit".into(),
+                json!({"query": q, "what": "query is not the name of any listed suite", "found_id": format!("0x{:04x}", id), "hits_in_this_chunk": hits.len()}),
+            );
+        }
+    });
 
     // ------------------------------------------------ derived sizes on every enc x mac variant
     ctx.sweep("synthetic", (ENC_ALL.len() * MAC_ALL.len()) as u64, |ctx, i| {
